@@ -696,6 +696,25 @@ func (env *Env) formula(cl *Clause, asGoal bool) (res *Term) {
 	if len(cl.Binders) == 0 {
 		return env.evalBool(cl)
 	}
+	if cl.Exists {
+		if len(cl.Binders) != 1 {
+			specFail("exists with more than one binder")
+		}
+		if !asGoal { // hypothesis: skolemise
+			sk := Fresh("ex_"+cl.Binders[0], SortInt)
+			env.st.addInst(sk)
+			bind(env, []*Term{sk})
+			return env.evalBool(cl)
+		}
+		// goal: the witness must be one of the instantiation terms seen on this path
+		res := False
+		cands := append([]*Term{IntK(0)}, env.st.inst...)
+		for _, t := range cands {
+			bind(env, []*Term{t})
+			res = Or(res, env.evalBool(cl))
+		}
+		return res
+	}
 	if asGoal {
 		var ks []*Term
 		for _, b := range cl.Binders {
